@@ -77,6 +77,11 @@ def load_findings():
 
 def _match(match, signature):
     for k, v in match.items():
+        if k.endswith("__subset"):
+            sv = signature.get(k[: -len("__subset")])
+            if not isinstance(sv, (list, tuple, set)) or not set(sv) <= set(v):
+                return False
+            continue
         if k not in signature:
             return False
         sv = signature[k]
